@@ -181,7 +181,7 @@ def run_case(i, seed, tier):
         if i % 7 == 4:
             # edits continued on an object that opened the image mastered so far
             h.extend(nops // 2)
-            counters['reopened_histories'] = 1 if h.reopen() else 0
+            counters['reopened_histories'] = 1 if h.reopen(reuse=(i % 2 == 0)) else 0
             h.gen.profile = 'churn'
             h.extend(nops - nops // 2)
         else:
